@@ -6,6 +6,15 @@ func register(c *PropConfig) { propConfigs[c.ID] = c }
 
 func init() {
 	register(&PropConfig{
+		ID:       "C04",
+		Replay:   replayC04,
+		Packages: []string{"."},
+		Assume: []string{
+			"URL_BROWSER_OK (contracts/lang/url.lang) formalises WHATWG scheme extraction; written from the standard",
+			"strings.IndexRune / ContainsRune / EqualFold behave as their models state (EqualFold = membership in the simple-fold closure, derived from unicode.SimpleFold)",
+		},
+	})
+	register(&PropConfig{
 		ID:       "C17",
 		Packages: []string{"./cmd/templ/lspcmd/proxy"},
 		Assume: []string{
